@@ -238,6 +238,16 @@ theorem seq_gateFire (s : State) (ch : Option Int) (ok : Bool) : SeatsEq (gateFi
   · exact hg
   · exact (seq_openCore _ ch ok).trans hg
 
+theorem seq_retryOpen (s : State) (ch : Option Int) (ok : Bool) : SeatsEq (retryOpen s ch ok).1 s := by
+  unfold retryOpen
+  split
+  · exact ⟨rfl, rfl, rfl⟩
+  · split
+    · exact ⟨rfl, rfl, rfl⟩
+    · split
+      · exact ⟨rfl, rfl, rfl⟩
+      · exact seq_openCore s ch ok
+
 /-- a top-up by `PlayerReserve` of somebody already at the table -/
 theorem seq_reserve_known (s : State) (j : Join) (ch : List Int) (i : Nat) (h : findPlayerIdx s j.id = some i) :
     SeatsEq (reserve s j ch).1 s := by
@@ -389,6 +399,7 @@ theorem step_booked (s : State) (e : Event) (h : Booked s) (ha : EventArrivalOK 
   | finish id => exact (seq_finish s id).booked h
   | autojoin => exact (seq_autoJoinStale s).booked h
   | fire ch ok => exact (seq_gateFire s ch ok).booked h
+  | retry ch ok => exact (seq_retryOpen s ch ok).booked h
   | settle r => exact (seq_settle s r).booked h
   | «continue» ex => exact (seq_continueGame s ex).booked h
 
